@@ -39,6 +39,7 @@ Every problem string is '<class tag>: <details>'.  The class tags are stable:
     open-optparam    OPEN optional parameters do not nest
     cap-length       a capability over-runs its parameter or has a length its code does not allow
     rr-orf           ROUTE-REFRESH longer than 23 octets whose ORF part does not nest
+    more             (not a class) n further lines of one attribute container were suppressed
 
 JUDGEMENT CALLS
 ===============
@@ -93,8 +94,11 @@ JUDGEMENT CALLS
 10. SR-TE policy NLRI (SAFI 73): length octet 96 with AFI 1 and 192 with AFI 2, nothing else
     (draft-ietf-idr-segment-routing-te-policy / RFC 9830 2.1).  An IPv6 endpoint under AFI 1
     is therefore reported.
-11. Tunnel encapsulation (23, RFC 9012 2/3): nesting is checked for every tunnel type.  Value
-    layouts are checked only inside tunnel type 15 (SR policy) and only for sub-TLVs 12, 13, 14,
+11. Tunnel encapsulation (23, RFC 9012 2/3): nesting is checked for every tunnel type, and in every
+    tunnel type: sub-TLV types 0 and 255 (reserved in the registry, never legal to send; a 2-octet
+    length read as <type 0, length> is the usual way to get there) are reported, 2 -> 2, 4 -> 8,
+    8 -> 2, 9 -> 1, 10 -> non-zero multiple of 4; outside tunnel type 15 also 6 -> 6|10|22, 7 -> 1.
+    Further layouts are checked only inside tunnel type 15 (SR policy), for sub-TLVs 12, 13, 14,
     15, 128 (with 9 and the segment types below), 129, 130, plus 6 and 7, which pre-standard
     drafts used for preference / binding SID: 6 accepts 6, 10, 22 (RFC 9012 egress endpoint with
     address family 0 / IPv4 / IPv6, or the old preference) and 7 accepts 1 (DS field), 2, 6, 18.
@@ -412,11 +416,18 @@ def _check_tokens(toks, asn4, add_path):
     return probs
 
 
+_CASCADE_CAP = 6
+
+
 def walk_attributes(data, asn4=None, add_path=False):
     """Walk a path-attribute container (the octets covered by Total Path Attribute Length)."""
     data = bytes(data)
     toks, err = _tokenize_attrs(data)
     probs = _check_tokens(toks, asn4, add_path)
+    if len(probs) > _CASCADE_CAP:
+        # a desynchronised cursor reads garbage "attributes"; keep the head, it names the cause
+        probs = probs[:_CASCADE_CAP] + ['more: %d further problem(s) in this attribute container not listed'
+                                        % (len(probs) - _CASCADE_CAP)]
     if err:
         probs.append(err)
     if not probs:
@@ -881,6 +892,9 @@ def _walk_pmsi(value):
 _SEG_LEN = {1: (6,), 2: (18,), 3: (6, 10), 4: (18, 22), 5: (10, 14), 6: (10, 14), 7: (42, 46), 8: (34, 38),
             13: (18, 26)}
 _SRP_LEN = {12: (6,), 13: (2, 6, 18), 14: (3,), 15: (2,), 6: (6, 10, 22), 7: (1, 2, 6, 18)}
+# RFC 9012 3: sub-TLVs whose size does not depend on the tunnel type (checked in every tunnel type)
+_SUB_LEN = {2: (2,), 4: (8,), 8: (2,), 9: (1,)}
+_SUB_LEN_OTHER = {6: (6, 10, 22), 7: (1,)}   # outside tunnel type 15
 
 
 def _walk_subtlvs(data, where, probs):
@@ -935,7 +949,22 @@ def _walk_tunnel_encap(value):
     for tt, tv in tunnels:
         where = 'TUNNEL_ENCAPSULATION tunnel type %d' % tt
         subs = _walk_subtlvs(tv, where, probs)
-        if subs is None or tt != 15:
+        if subs is None:
+            continue
+        for st, sv in subs:
+            if st in (0, 255):
+                probs.append('tlv-nesting: %s: sub-TLV type %d is reserved (RFC 9012 registry); the cursor is most '
+                             'likely inside another sub-TLV' % (where, st))
+            elif st in _SUB_LEN and len(sv) not in _SUB_LEN[st]:
+                probs.append('tlv-length: %s: sub-TLV type %d length %d, legal: %s'
+                             % (where, st, len(sv), ', '.join(str(x) for x in _SUB_LEN[st])))
+            elif st == 10 and (len(sv) == 0 or len(sv) % 4):
+                probs.append('tlv-length: %s: MPLS label stack sub-TLV length %d, must be a non-zero multiple of 4'
+                             % (where, len(sv)))
+            elif tt != 15 and st in _SUB_LEN_OTHER and len(sv) not in _SUB_LEN_OTHER[st]:
+                probs.append('tlv-length: %s: sub-TLV type %d length %d, legal: %s'
+                             % (where, st, len(sv), ', '.join(str(x) for x in _SUB_LEN_OTHER[st])))
+        if tt != 15:
             continue
         for st, sv in subs:
             if st in _SRP_LEN:
